@@ -91,7 +91,7 @@ pub fn run(s: &dyn Subject, ctx: &Ctx) -> Option<DeclReport> {
     }
     if matches!(spec.fam, Fam::Str) {
         let l = if ctx.tier == Tier::Quick { 3 } else { 4 };
-        rep.exhaustive.push((format!("all strings of length <= {l} over the 15-scalar hostile alphabet"), crate::domain::all_strings(l).len() as u64));
+        rep.exhaustive.push((format!("all strings of length <= {l} over the 17-scalar hostile alphabet"), crate::domain::all_strings(l).len() as u64));
     }
     for raw in &dom {
         if let Some(only) = &ctx.only_input {
